@@ -369,6 +369,7 @@ def run(ck, C2M, WORK, drv, runcmd, cases, QUICK, layout_eval):
              "counters_ok": 0, "class_types": 0, "class_side_condition_true": 0,
              "class_side_condition_true_equal": 0, "class_model_differs": 0, "class_invalid_pattern": 0}
     class_seen = set()
+    reported = set()
     sig_count = {}
     _unused = {}
     layout_cache = {}
@@ -698,6 +699,10 @@ def run(ck, C2M, WORK, drv, runcmd, cases, QUICK, layout_eval):
                 done += list(zip(extra, ex.map(shrink_one, extra)))
         for (pr, v), (small, sv, sig) in done:
             stats["classes"][sig] = stats["classes"].get(sig, 0) + 1
+            if (sig, proto_str(small)) in reported:
+                stats["duplicate_reports_suppressed"] = stats.get("duplicate_reports_suppressed", 0) + 1
+                continue
+            reported.add((sig, proto_str(small)))
             b = Batch([small])
             ck.violation({"stage": "tie", "theorem_or_correspondence": "passing: c2m vs gcc (class_meets_sysv / values intact)",
                           "input": {"kind": "proto", "proto": proto_str(small), "found_in": v["proto"], "origin": origin,
